@@ -1,10 +1,11 @@
 pub mod chunker;
+pub mod flight;
 pub mod session;
 
 use crate::core::Engine;
 
 pub fn all() -> Vec<&'static dyn Engine> {
-    vec![&chunker::ChunkerEngine, &session::SessionEngine]
+    vec![&chunker::ChunkerEngine, &session::SessionEngine, &flight::FlightEngine]
 }
 
 pub fn for_property(id: &str) -> Option<&'static dyn Engine> {
